@@ -43,9 +43,21 @@ func buildDocumentIdentifier(doc *spdx23.Document) string {
 	)
 }
 
+// readSPDXJSON decodes an SPDX document with the SPDX tools library. The
+// library dereferences JSON nulls found in some of its element lists, so a
+// panic while decoding untrusted input is turned into an error here.
+func readSPDXJSON(r io.Reader) (doc *spdx.Document, err error) {
+	defer func() {
+		if p := recover(); p != nil {
+			doc, err = nil, fmt.Errorf("decoding SPDX document: %v", p)
+		}
+	}()
+	return spdxjson.Read(r)
+}
+
 // ParseStream reads an io.Reader to parse an SPDX 2.3 document from it
 func (u *SPDX23) Unserialize(r io.Reader, _ *native.UnserializeOptions, _ interface{}) (*sbom.Document, error) {
-	spdxDoc, err := spdxjson.Read(r)
+	spdxDoc, err := readSPDXJSON(r)
 	if err != nil {
 		return nil, fmt.Errorf("parsing SPDX json: %w", err)
 	}
